@@ -20,6 +20,8 @@ VERIF = os.path.dirname(os.path.dirname(os.path.abspath(__file__)))
 sys.path.insert(0, os.path.join(VERIF, "harness"))
 import build as vbuild  # noqa: E402
 
+# sensitivity tooling (bin/mutsweep, bin/seedcheck) redirects evidence/replays away from the committed tree
+OUT = os.environ.get("VERIF_OUT") or VERIF
 NPROC = int(os.environ.get("VERIF_JOBS", str(os.cpu_count() or 8)))
 
 
@@ -338,7 +340,7 @@ def report(mod, cases, verdicts, tier, seed, wall):
     for key, kf in sorted(known_hit.items()):
         print("KNOWN-FINDING: property=%s %s" % (prop, kf.get("what", key)))
     for key, (c, detail) in sorted(new_keys.items()):
-        d = os.path.join(VERIF, "replays", prop)
+        d = os.path.join(OUT, "replays", prop)
         os.makedirs(d, exist_ok=True)
         path = os.path.join(d, scn_hash([key, c.scns]) + ".json")
         json.dump({"property": prop, "key": key, "case_id": c.id, "driver": c.driver, "flavor": c.flavor,
@@ -378,8 +380,8 @@ def report(mod, cases, verdicts, tier, seed, wall):
         "level": mod.LEVEL, "coverage": cov, "assumptions": getattr(mod, "ASSUMPTIONS", []),
         "wall_s": round(wall, 2), "violations": nviol,
     }
-    os.makedirs(os.path.join(VERIF, "evidence"), exist_ok=True)
-    with open(os.path.join(VERIF, "evidence", prop + ".json"), "w") as f:
+    os.makedirs(os.path.join(OUT, "evidence"), exist_ok=True)
+    with open(os.path.join(OUT, "evidence", prop + ".json"), "w") as f:
         json.dump(evd, f, indent=1, default=str)
     print("%s tier=%s seed=%d cases=%d distinct_nontrivial=%d violations=%d known=%d inconclusive=%d wall=%.1fs observed=%s" % (
         prop, tier, seed, len(cases), len(distinct), nviol, len(known_hit), len(inconclusive), wall,
